@@ -10,7 +10,9 @@ value encodes (slice, row, column) exactly, so the rows a band contains are read
   astrometry        a band pixel's sky position under the band header differs by > 1e-9 deg from that of the same
                     pixel (row offset read off the data) under the full header   (refs/wcs_zenithal.py)
   scaled_values     a BSCALE file: the loader's full image is not raw*BSCALE (BZERO is outside the statement)
-  invalid_accepted  i >= n, i < 0 or n <= 0 did not raise
+  invalid_accepted  i >= n, i < 0 or n <= 0 did not raise; or a non-integer i or n (fractional float or numpy float,
+                    nan, inf - also ones that would truncate to a valid pair) did not raise.  Integer-valued floats,
+                    strings, None and bool are only recorded, numpy int64 pairs must give the python-int band
 
 "Full image" = astropy.io.fits.getdata/getheader for plain files, the loader's own band (0,1) for scaled and compressed
 ones.  Any partition into consecutive runs that starts at row 0 and ends at the last row satisfies the tiling clauses:
@@ -49,11 +51,12 @@ MIN_REACH = {'fits_tools:load_image_band': 1, 'fits_tools:expand': 1}
 MIN_COUNTERS = {
     'quick': {'band_loads': 60000, 'pairs_judged': 2500, 'pairs_edge_last': 1500, 'pairs_edge_interior_only': 150,
               'pairs_friendly': 100, 'astrometry_judged': 50000, 'form_3d': 500, 'form_4d': 500,
-              'form_compressed': 500, 'form_bscale_f32': 500, 'form_bscale_int': 500, 'invalid_specs': 50},
+              'form_compressed': 500, 'form_bscale_f32': 500, 'form_bscale_int': 500, 'invalid_specs': 50,
+              'noninteger_specs': 300, 'numpy_integer_specs': 40},
     'thorough': {'band_loads': 250000, 'pairs_judged': 9000, 'pairs_edge_last': 5000,
                  'pairs_edge_interior_only': 500, 'pairs_friendly': 100, 'astrometry_judged': 200000,
                  'form_3d': 3000, 'form_4d': 3000, 'form_compressed': 3000, 'form_bscale_f32': 3000,
-                 'form_bscale_int': 3000, 'invalid_specs': 200},
+                 'form_bscale_int': 3000, 'invalid_specs': 200, 'noninteger_specs': 300, 'numpy_integer_specs': 40},
 }
 
 SKY_TOL = 1e-9
@@ -372,6 +375,23 @@ INVALID = [(1, 1), (2, 2), (5, 3), (64, 64), (65, 64), (-1, 1), (-1, 4), (-3, 2)
            (-1, -1), (3, -4), (-2, 0)]
 
 
+def nonint_specs():
+    """band specifications that name no band because a member is not an integer: fractional python / numpy floats in
+    either position (also ones that truncate or round to a valid pair), nan and inf.  They are invalid under the
+    statement ("band i of n, i = 0..n-1") and must be rejected with an error - any exception type counts."""
+    f64, f32 = np.float64, np.float32
+    return [(0.5, 2), (1.5, 2), (0, 2.5), (1, 2.5), (1.999, 2), (0.999, 1), (-0.5, 2), (-0.999, 1), (0.25, 1),
+            (2.0000001, 3), (0, 1.5), (0, 0.5), (3, 3.9), (f64(0.5), 2), (f64(1.5), f64(2.5)), (f32(1.5), np.int64(2)),
+            (0, f64(2.5)), (f64(-0.5), 3), (float('nan'), 2), (0, float('nan')), (0, float('inf')),
+            (float('inf'), float('inf'))]
+
+
+def other_spellings():
+    """not judged, only recorded (the statement does not say whether they are valid): integer-valued floats, strings,
+    None, bool"""
+    return [(1.0, 2), (0.0, 1.0), (np.float64(1.0), 2), (1, 2.0), ('0', '2'), ('1', 2), (None, 2), (True, 2)]
+
+
 def run(case):
     from AegeanTools import fits_tools as ft
     wz.selfcheck()
@@ -398,7 +418,48 @@ def run(case):
                     o.count('invalid_specs')
                     o.n_eval += 1
                     o.n_nontrivial += 1
-            o.sample = {'form': form, 'specs': INVALID}
+                # non-integer spellings of the band
+                for spec in nonint_specs():
+                    try:
+                        d, h = ft.load_image_band(fb['path'], band=spec, hdu_index=fb['hdu_index'],
+                                                  cube_index=fb['cube_index'])
+                    except Exception as e:
+                        o.count('noninteger_rejected')
+                        o.see('noninteger_spec_exception', type(e).__name__)
+                    else:
+                        o.violate('invalid_accepted', dict(fb['info'], band=repr(spec), spelling='non-integer',
+                                                           returned_shape=list(np.shape(d))))
+                    o.count('noninteger_specs')
+                    o.n_eval += 1
+                    o.n_nontrivial += 1
+                for spec in other_spellings():
+                    try:
+                        d, h = ft.load_image_band(fb['path'], band=spec, hdu_index=fb['hdu_index'],
+                                                  cube_index=fb['cube_index'])
+                        o.see('info_other_spelling_outcome', '%r -> served %s' % (spec, list(np.shape(d))))
+                    except Exception as e:
+                        o.see('info_other_spelling_outcome', '%r -> %s' % (spec, type(e).__name__))
+                # numpy integers (what np.arange hands out) are integers: same band as with python ints
+                for i, n in ((0, 1), (1, 2), (2, 3), (0, 7)):
+                    try:
+                        d0, h0 = ft.load_image_band(fb['path'], band=(i, n), hdu_index=fb['hdu_index'],
+                                                    cube_index=fb['cube_index'])
+                    except Exception:
+                        continue                      # judged by the pairs cases
+                    try:
+                        d1, h1 = ft.load_image_band(fb['path'], band=(np.int64(i), np.int64(n)),
+                                                    hdu_index=fb['hdu_index'], cube_index=fb['cube_index'])
+                    except Exception:
+                        o.violate('raises', dict(fb['info'], band='(np.int64(%d), np.int64(%d))' % (i, n), exc=_tail()))
+                        continue
+                    o.count('numpy_integer_specs')
+                    o.n_eval += 1
+                    if not (np.array_equal(np.asarray(d0), np.asarray(d1)) and h0.get('CRPIX2') == h1.get('CRPIX2')
+                            and h0.get('NAXIS2') == h1.get('NAXIS2')):
+                        o.violate('data', dict(fb['info'], band='(np.int64(%d), np.int64(%d))' % (i, n),
+                                               note='differs from the python-int call',
+                                               shapes=[list(np.shape(d0)), list(np.shape(d1))]))
+            o.sample = {'form': form, 'specs': INVALID, 'noninteger_specs': [repr(x) for x in nonint_specs()]}
             return o.result()
         for rows, ns in case['work']:
             fb = build_file(form, rows, rng, tmp, ft)
